@@ -60,9 +60,9 @@ LATER = {
     "C12": "the evaluators convert Integer/Rational leaves the same way; R12.6: complex-domain evaluators call the complex overload of domain-restricted functions; R12.7: fits-test and machine-word read agree on signedness.",
     "C13": "R13.5: the Symbol handler resolves cse replacement symbols before inputs; R13.6: tree_cse reserves the name of every symbol it visits; R13.7: inputs are matched by identity, never by name.",
     "C16": "R16.5: negative numbers never have Atom precedence; R16.6: the printer's ordering comparator tests __cmp__ == -1 over a range-checked compare and never decides key identity by hash, and the compare() functions it relies on pass C02's antisymmetry rules.",
-    "C17": "R17.4 also requires a tested end pointer for strtol results; R17.5: no Integer from a floating-point intermediate in the parser.",
+    "C17": "R17.4 also requires a tested end pointer for strtol results; R17.5: no Integer from a floating-point intermediate in the parser; R17.6: a grammar action over a split IMPLICIT_MUL token uses both halves unless its path establishes the dropped half to be the sentinel `one`.",
     "C19": "R19.7: loaders reject an empty container only for classes that cannot be empty; R19.8: no loader recombines floating parts arithmetically.",
-    "C20": "R20.7 also covers the loads() entry points (archive construction and header reads inside the translating try); R20.12: loaders reject an empty operand container for And/Or/Xor/Piecewise/Union/FiniteSet/Derivative.",
+    "C20": "R20.7 also covers the loads() entry points (archive construction and header reads inside the translating try); R20.12: loaders reject an empty operand container for And/Or/Xor/Piecewise/Union/FiniteSet/Derivative/Max/Min; R20.13: the loader's address table holds owning references.",
     "C18": "R18.3: string positions from find*() are tested before use in the hand-written parser code; container members written through mutators count as parser state.",
     "C39": "R39.5: a stop visitor sets stop_ only after assigning its answer; R39.6: a dedicated free_symbols handler visits every child under a cache test about that child; R39.7: has_symbol compares the needle at every class coeff() admits; R39.8: every binder class (Subs, ConditionSet, ImageSet) has a binding-aware free_symbols handler.",
     "C42": "R42.5/R42.6 index and integer hand-over; R42.7 container wrappers apply the std operation of the same meaning; R42.8 no const input handle is read after an output handle was written; R42.9 enum-valued C integers arrive by cast; R42.10 nullary constructors return the object their name says; R42.11 objects created by *_new() are fully initialised; R42.12 a call that receives an output handle by reference holds its own RCP of every input; R42.13 the C matrix functions size the result with the shape of the operation.",
